@@ -98,7 +98,8 @@ def register(reg):
                      ensures=['0 <= result and result <= 4294967295',
                               'implies(v == 0, result == 1073741824)',
                               'implies(v >= pow2(127), result == 2147483647)',
-                              'implies(v < -pow2(127), result == 4290772992)',
+                              # saturation at the most negative number of the code, -2**127 (word 0x80000000), which is itself encoded exactly
+                              'implies(v <= -pow2(127), lis68(result) == -pow2(127))',
                               'implies(v > 0 and v < pow2(-152), result == 1073741824)',
                               'implies(v >= pow2(-129) and v < pow2(127), lis68(result) <= v and (v - lis68(result)) * 4194304 < v)',
                               'implies(v <= -pow2(-129) and v > -pow2(127), lis68(result) >= v and (lis68(result) - v) * 4194304 < -v)'],
@@ -263,3 +264,59 @@ def _register_rp66(reg):
                      ensures=[' and '.join('implies(rc == %d, result == %d)' % kv for kv in fl.items())],
                      canaries=['result == 4']))
 
+
+
+def standins(tier, seed):
+    """The three implementations of LIS code 68 (pRepCode Python, cRepCode Cython, cpRepCode C++): only the Python text is
+    under contract, so their agreement "bit for bit on every word and every finite number" is sampled here (bounded):
+    every exponent field x both signs x boundary and random mantissas for from68 (also against the exact rational value of
+    the standard), and for to68 every exactly representable value, boundary numbers and random doubles of every magnitude;
+    encode(decode(w)) must decode to the same value (outside the known finding v <= -2**127)."""
+    from pyvc import standin
+    from pyvc.check import load_findings
+    n = 6 if tier == 'quick' else 200
+    known = any(f.get('obligation') == 'pRepCode.py:to68/post#3' for f in load_findings('C07'))
+    code = r"""
+from fractions import Fraction
+from TotalDepth.LIS.core import pRepCode, cRepCode, cpRepCode
+rnd = random.Random(%d)
+KNOWN_MIN = %r
+def spec(w):
+    s = w >> 31; e = (w >> 23) & 0xFF; m = w & 0x7FFFFF
+    return Fraction(m) * Fraction(2) ** (e - 151) if s == 0 else Fraction(m - (1 << 23)) * Fraction(2) ** (104 - e)
+bad = []
+cases = 0
+words = []
+for s in (0, 1):
+    for e in range(256):
+        for m in [0, 1, 2, 0x3FFFFF, 0x400000, 0x400001, 0x7FFFFE, 0x7FFFFF] + [rnd.randrange(1 << 23) for _ in range(%d)]:
+            words.append((s << 31) | (e << 23) | m)
+for w in words:
+    cases += 1
+    vals = [pRepCode.from68(w), cRepCode.from68(w), cpRepCode.from68(w)]
+    if not (vals[0] == vals[1] == vals[2]) or Fraction(vals[0]) != spec(w):
+        if len(bad) < 3: bad.append({'from68_word': hex(w), 'python_cython_cpp': [repr(x) for x in vals], 'standard': float(spec(w))})
+numbers = [float(spec(w)) for w in words] + [0.0, -0.0, 2.0 ** 127, -2.0 ** 127, 2.0 ** 127 * (1 - 2.0 ** -23), 1e-50, -1e-50, 1.7e38, -1.8e38, 3e38,
+                                             5e-46, 1e300, -1e300, 2.0 ** -129, -2.0 ** -129, 2.0 ** -152, 2.0 ** -151]
+for _ in range(%d):
+    numbers.append(rnd.choice([1, -1]) * rnd.random() * 2.0 ** rnd.randint(-160, 130))
+for v in numbers:
+    cases += 1
+    ws = [pRepCode.to68(v), cRepCode.to68(v), cpRepCode.to68(v)]
+    if not (ws[0] == ws[1] == ws[2]):
+        if len(bad) < 3: bad.append({'to68_value': repr(v), 'python_cython_cpp': [hex(x) for x in ws]})
+for w in words:
+    cases += 1
+    v = spec(w)
+    if KNOWN_MIN and v <= -Fraction(2) ** 127:
+        continue
+    w2 = pRepCode.to68(float(v))
+    if spec(w2) != v:
+        if len(bad) < 3: bad.append({'word': hex(w), 'value': float(v), 'encoded_again': hex(w2), 'which_decodes_to': float(spec(w2))})
+print(json.dumps({'cases': cases, 'bad': bad}))
+if bad:
+    sys.exit(1)
+""" % (seed, known, n, 3000 if tier == 'quick' else 200000)
+    return [standin.run('code68-three-implementations', 'bounded: structured sample of words and numbers; Python / Cython / C++ compared bit for bit, '
+                        'from68 also against the exact rational value of the standard, encode(decode(w)) value-preserving',
+                        '512 exponent/sign combinations x %d mantissas; %d random doubles' % (8 + n, 3000 if tier == 'quick' else 200000), code)]
